@@ -158,6 +158,9 @@ func (l lifter) node(n parser.Node) *Node {
 				}
 			}
 		}
+		if k := len(m.Attrs); k > 0 && m.Attrs[k-1].K == AConst && m.Attrs[k-1].Q == "" {
+			m.TagEnd = " " // the parser lets an unquoted value swallow the character after it
+		}
 		if !m.Void {
 			m.Lead, m.Kids = l.nodes(n.Children, "")
 		}
